@@ -604,6 +604,14 @@ def gen_inputs(tier, rnd):
         if not fixed:
             last_f = max(i for i, r in enumerate(rows) if r and r[0].strip().lower() == "f")
             yield {"kind": "base", "rows": rows[:last_f + 1] + [["F", "padded_example", " ab ", "", "4", "Text"]] + rows[last_f + 1:]}
+        if not fixed:
+            # a rule limit of 15 digits just below a power of ten under a length that it just fits / just misses
+            last_f = max(i for i, r in enumerate(rows) if r and r[0].strip().lower() == "f")
+            yield {"kind": "base", "rows": rows[:last_f + 1] + [["F", "big_number", "", "", "1...15", "Integer", "0...999999999999999"]] + rows[last_f + 1:]}
+            yield {"kind": "defect", "defect": "rule-limit-shorter-than-exact-length", "at": last_f + 1,
+                   "rows": rows[:last_f + 1] + [["F", "big_number", "", "", "16", "Integer", "999999999999999"]] + rows[last_f + 1:]}
+            yield {"kind": "defect", "defect": "rule-limit-longer-than-length", "at": last_f + 1,
+                   "rows": rows[:last_f + 1] + [["F", "big_number", "", "", "1...15", "Integer", "0...1000000000000000"]] + rows[last_f + 1:]}
         for name, rw in rewrites(rnd, rows):
             yield {"kind": "rewrite", "rewrite": name, "rows": rw, "base_rows": rows}
         yield {"kind": "api", "of": "base", "rows": rows}
